@@ -8,6 +8,7 @@ import PgVerif.Model.TableGen
 import PgVerif.Spec.LR1
 import PgVerif.Spec.Prec
 import PgVerif.Spec.LexRules
+import PgVerif.Proofs.LexRules
 import PgVerif.Model.Actions
 import PgVerif.Model.Recovery
 import PgVerif.Model.Cache
@@ -348,6 +349,17 @@ def handle (st : St) (cmd : String) (args : List Nat) : St × String :=
       let toks := if lexdis != 0 then lexRules T strLike cands else topPriority T cands
       (st, "rules " ++ natList (toks.flatMap (fun t => [t.term, t.len])))
     | _, _, _ => (st, "bad-rules")
+  | "lexhyp" =>
+    -- lexhyp <state> <pos> <strlike flag per terminal...>: the decidable hypotheses of
+    -- C07_next_tokens_eq_rules / C07_next_tokens_nolex on this table, state and position
+    match st.T, st.inp, args with
+    | some T, some inp, s :: p :: flags =>
+      let strLike := fun t => flags.getD t 0 != 0
+      let b := fun (x : Bool) => if x then 1 else 0
+      (st, "lexhyp " ++ natList [b ((T.finish s).length == (T.cells s).length),
+        b (lexSortedB T strLike (T.expected s)), b (flagsOKB T strLike (T.expected s)),
+        b (strDecB T inp strLike p (T.expected s)), b ((T.expected s).all (fun x => !x.2))])
+    | _, _, _ => (st, "bad-lexhyp")
   | "sentence" =>
     match st.inp, args with
     | some inp, [fuel] =>
